@@ -94,7 +94,9 @@ def parseRecord (firstLen : Nat) (cols : List (String × Nat)) (r : List String)
 
 /-- the loop writing the outputs, with the duplicate-row check -/
 def fillRows : List (Nat × Bool) → List Bool → List Bool → Except CsvErr (List Bool)
-  | [], outs, _ => .ok outs
+  | [], outs, filled =>
+    -- the line count also counts blank lines, which the reader skips
+    if filled.all id then .ok outs else .error .mismatchedCount
   | (i, b) :: rest, outs, filled =>
     if filled.getD i false then .error .duplicateRow
     else fillRows rest (outs.set i b) (filled.set i true)
